@@ -20,7 +20,7 @@ def jobs(ctx):
                 j(n, 1, 2, m, stripe=(0, max(0, n - 103), n) if n < 150 else (0, 197, n) if n > 197 else (0, 98, 102))
                 j(1, n, 2, m, stripe=(1, max(0, n - 103), n) if n < 150 else (1, 197, n) if n > 197 else (1, 98, 102))
             j(101, 101, 1, m, stripe=(0, 99, 101))
-            j(101, 102, 2, m, stripe=(1, 99, 102))
+            j(101, 102, 2, m, stripe=(1, 100, 102), cap=600)
         j(101, 1, 2, 'min')      # fully symbolic column across the block boundary
     return J
 
